@@ -207,7 +207,11 @@ func execC18Named(t *testing.T, plan *Plan) *Outcome {
 				if len(order) != 2 || order[0].closedAt == order[1].closedAt {
 					return // (completed at the same instant: the order of revisions is not determined)
 				}
-				for rev, u := range map[int32]*upload{0: order[0], -1: order[1], 1: order[1], -2: order[0]} {
+				for _, x := range []struct {
+					rev int32
+					u   *upload
+				}{{0, order[0]}, {-1, order[1]}, {1, order[1]}, {-2, order[0]}} {
+					rev, u := x.rev, x.u // (a fixed order: the calls are scheduling points)
 					got, err := read(bucket.OpenDownloadStreamByName(ctx, "same", options.GridFSName().SetRevision(rev)))
 					if err != nil || !bytes.Equal(got, gfsContent(u.id, 0, u.n)) {
 						e.violate(violation("C18", "download-bytes", "by-name", fmt.Sprintf("revision %d of a file name with two uploads (completed at %v and %v) should be upload %d (%d bytes); got %d bytes, err %v", rev, order[0].closedAt, order[1].closedAt, u.id, u.n, len(got), err)))
